@@ -1,3 +1,5 @@
+import Props.GenJoinTail
 import Props.GenHeads
 open Model.SlicesGen
 #print axioms findHeads_eq
+#print axioms joinTail_eq
